@@ -20,6 +20,7 @@ def mk_behaviour(spec):
         return None
 
     def tag(f, node):
+        if not f.data: return Frame()          # a blank topic (no data, no image) stays blank on its way down
         d = dict(f.data); d['path'] = list(d.get('path', [])) + [node.name]
         return Frame(d)
 
@@ -47,6 +48,7 @@ def mk_behaviour(spec):
         elif k == 'add':
             out[spec['name']] = Frame({'o': node.name, 'seq': s, 't': spec['name'], 'path': [node.name]})
         elif k == 'remove': out = {t: f for t, f in out.items() if t != spec['name']} or out
+        elif k == 'blank': out[spec['name']] = Frame()      # an empty frame after the topics that carry data (codec: the data part is optional)
         elif k == 'lone':
             if not out: return out
             t0 = 'main' if 'main' in out else sorted(out)[0]
@@ -77,6 +79,7 @@ def gen_topology(rng, family=None, c03=True, nframes=None):
         elif r < 0.6 and 'main' in topics_in: b = {'kind': 'lone'}
         elif r < 0.75: b = {'kind': 'defer'}
         elif r < 0.85: b = {'kind': 'add', 'name': 'x' + str(len(nodes))}
+        elif r < 0.93: b = {'kind': 'blank', 'name': 'blank' + str(len(nodes))}
         else: b = {'kind': 'pass'}
         if allow_skip and rng.random() < 0.5: b['skip'] = rng.sample(range(nframes), rng.randint(1, 2))
         if rng.random() < 0.15: b['empty'] = rng.sample(range(nframes), 1)
@@ -231,8 +234,8 @@ def oracle_c03(topo, objs, inp):
         got = [canon_frames(fr) for fr in objs[n['name']].raw_log]
         exp = [canon_frames(fr) for _, fr in inp[n['name']]]
         if got != exp:
-            gi = [sorted({d.get('seq') for d in g.values()}) for g in got]
-            ei = [sorted({d.get('seq') for d in g.values()}) for g in exp]
+            gi = [sorted({d.get('seq') for d in g.values() if d.get('seq') is not None}) for g in got]
+            ei = [sorted({d.get('seq') for d in g.values() if d.get('seq') is not None}) for g in exp]
             kind = 'lost' if len(got) < len(exp) else 'extra' if len(got) > len(exp) else 'altered'
             v.append((f'composition-{kind}', f"node {n['name']}: process() saw seqs {gi}, composition of the upstream process functions gives {ei}"))
     for n in topo['nodes']:   # deferred results are evaluated at the moment they are sent
@@ -258,6 +261,10 @@ def oracle_sets(topo, objs):
                 s = min(ss)
                 if o in last and s <= last[o]: v2.append(('pipeline-order', f"node {n['name']} got seq {s} of {o} after {last[o]}"))
                 last[o] = max(ss)
+        for fr in objs[n['name']].raw_log:      # unaltered: a topic published blank arrives blank, a topic arrives with the data of its own topic
+            for t, f in fr.items():
+                if t.startswith('blank') and f.data:
+                    v2.append(('pipeline-altered', f"node {n['name']}: blank topic {t!r} arrived with data {dict(f.data)!r}"[:300]))
     return v1, v2
 
 
